@@ -51,6 +51,7 @@ func checkC05(c *Ctx, r *Report) {
 		"R2 with shared==true every return of a cached result passes Close of the shared handle and a fresh Cache.Get whose entry replaces the shared one, or leaves through fetchDirectlyFromUpstream",
 		"R3 no single-use object escapes the closure: every non-error return of getFromCacheOrFetch is a cached result (Type != Direct); direct results are closed and turned into ErrNotCacheable; followers of an uncacheable leader fetch their own response with their own request",
 		"R4 the shared fetch runs with a context detached from the leader's cancellation (WithoutCancel/Background), not with the leader's request context",
+		"R7 a revalidation whose entry disappeared (expiry sweep, eviction) is resolved inside the flight, not by sending every coalesced client to the origin",
 		"R6 a request carrying a body (ContentLength != 0) is relayed directly: the shared flight and fetchUpstream (with its second-send fallbacks) are reachable in dedupFetch only under req.ContentLength == 0",
 		"R5 inside the flight, request headers are added only to a Clone of the request (the flight's request shares its header map with the leader's), so a fallback to per-client fetches sends every client's own request",
 	}
@@ -58,6 +59,38 @@ func checkC05(c *Ctx, r *Report) {
 	li := BuildLocks(c)
 	fs := c.FuncsNamed(fetcherT + "dedupFetch")
 	gs := c.FuncsNamed(fetcherT + "getFromCacheOrFetch")
+	// R7: an entry that disappears while it is being revalidated (expiry sweep of the janitor, eviction, delete) must
+	// not send every coalesced client to the origin: the 304 path may not leave the flight as "not cacheable" when
+	// the entry is merely gone — the flight has to produce one answer for everybody.
+	for _, f := range c.FuncsNamed(fetcherT + "handleUpstream304") {
+		upd := findCall(f, "("+cachePkg+".Cache).UpdateMetadata")
+		if upd == nil {
+			r.Undecided("C05.R7", "handleUpstream304: UpdateMetadata", c.Pos(f.Pos()), "unresolved anchor")
+			continue
+		}
+		fanOut := ""
+		eachInstr(f, func(in ssa.Instruction) {
+			ret, ok := in.(*ssa.Return)
+			if !ok || isRecoverReturn(ret) {
+				return
+			}
+			vals := retVals(ret)
+			if len(vals) < 2 || !onlyWhenNil(f, ret, ssa.Value(upd), false) {
+				return
+			}
+			if derivesFrom(vals[1], func(v ssa.Value) bool {
+				u, ok := v.(*ssa.UnOp)
+				if !ok {
+					return false
+				}
+				gl, ok := u.X.(*ssa.Global)
+				return ok && gl.Name() == "ErrNotCacheable"
+			}) {
+				fanOut = c.InstrPos(ret)
+			}
+		})
+		r.Check(fanOut == "", "C05.R7", "(*reservoir/proxy.fetcher).handleUpstream304: an entry lost during its revalidation does not fan out to every coalesced client", c.InstrPos(upd), "the UpdateMetadata failure is resolved inside the flight", "when the entry is gone by the time the 304 arrives (the janitor's expiry sweep removes stale entries, and nothing protects one that is being revalidated) the flight ends with ErrNotCacheable at "+fanOut+" and each of the N waiting clients fetches the resource itself: N+1 origin requests instead of one revalidation")
+	}
 	// R6: a request body can be read once and comes from one client's connection: a request that carries one is
 	// neither handed to the shared flight (the leader's half-sent body would fail every follower) nor sent a
 	// second time after a cache-side failure (the body is already consumed) — in dedupFetch the flight and every
@@ -1004,6 +1037,45 @@ func checkC09(c *Ctx, r *Report) {
 		}
 	}
 	r.Floor("C09.R3", nSelf, 8, "blocking lock acquisitions in package cache")
+	// R5: nobody waits for somebody else's download. The origin body is copied into the store (ReadFrom / io.Copy from
+	// the reader handed to Cache) without a lock that requests for OTHER keys need: the shard lock covers many keys.
+	nCopy := 0
+	for _, fn := range li.Fns {
+		if originPkgPath(fn) != cachePkg {
+			continue
+		}
+		eachInstr(fn, func(in ssa.Instruction) {
+			call, ok := in.(*ssa.Call)
+			if !ok {
+				return
+			}
+			n := calleeName(call)
+			if n != "(*bytes.Buffer).ReadFrom" && n != "io.Copy" && n != "io.ReadAll" && n != "io.CopyN" && n != "io.CopyBuffer" {
+				return
+			}
+			// the source is a reader parameter of the store function (the origin body)
+			fromParam := false
+			for _, a := range callArgs(call) {
+				if prm, ok := resolveVal(unconv(a)).(*ssa.Parameter); ok && prm.Parent() == fn {
+					if _, isIface := prm.Type().Underlying().(*types.Interface); isIface {
+						fromParam = true
+					}
+				}
+			}
+			if !fromParam {
+				return
+			}
+			nCopy++
+			held := li.HeldMay(call)
+			key := fmt.Sprintf("%s: the origin body is copied without a lock shared with other keys (#%d)", fnKey(fn), nCopy)
+			if held["S"] {
+				r.Fail("C09.R5", key, c.InstrPos(call), "the body is read from the origin while the key's SHARD lock is held ["+held.String()+"]: every request whose key maps to the same shard (hit or miss) waits until this download has finished, however slow that origin is — an answer its own origin gave at once hangs")
+			} else {
+				r.Ok("C09.R5", key, c.InstrPos(call), "no shard lock held during the copy")
+			}
+		})
+	}
+	r.Floor("C09.R5", nCopy, 2, "origin body copies in the cache backends")
 
 	// R4 sibling: empty-body refusal
 	refuses := map[string]bool{}
